@@ -378,7 +378,11 @@ impl Sched {
                 Site::PipeAfterSendOk | Site::PipeAfterTake | Site::PipeBeforeSend
             );
             let boost = if narrow { 3 } else { 1 };
-            if r < 40 * all * boost {
+            if all >= 4 && (h >> 20) % 400 == 0 {
+                // level 4: rare long stalls (60-250 ms) so that anything with a time budget in the
+                // loader (a fill loop that gives up, a receive with a timeout) behaves differently
+                std::thread::sleep(Duration::from_millis(60 + (h >> 30) % 190));
+            } else if r < 40 * all * boost {
                 std::thread::yield_now();
             } else if r < 70 * all * boost {
                 busy_wait(Duration::from_micros(1 + (h >> 10) % 60));
